@@ -6,6 +6,7 @@ import (
 	"golang.org/x/tools/go/ssa"
 
 	"rjverif/internal/scan"
+	"rjverif/internal/sibling"
 )
 
 // Debug dumps models (development aid).
@@ -21,6 +22,31 @@ func Debug(x *Ctx, args []string) {
 		l, p := x.Composed(args[1])
 		fmt.Print(l.Dump())
 		fmt.Println(p)
+	case "sibling":
+		rep, err := sibling.CompareSSA(x.W)
+		if err != nil {
+			fmt.Println("ERR", err)
+			return
+		}
+		for _, p := range rep.Pairs {
+			fmt.Printf("%-26s comparable=%v absent=%v events=%d paths=%d diffs=%d %s %s\n", p.Name, p.Comparable, p.Absent, p.Events, p.Paths, len(p.Diffs), p.WhyPos, p.Why)
+			for _, d := range p.Diffs {
+				fmt.Println("    DIFF", x.W.Pos(d.PosA), d.What)
+			}
+		}
+	case "scanlast":
+		res := x.Scan(args[1], func(fn *ssa.Function) *scan.Spec {
+			sp := scan.FuncSpec(fn, 0, 1, -1, -1)
+			sp.Entry = scan.LastSliceEntry
+			return sp
+		})
+		for _, p := range res.Problems {
+			fmt.Println("PROBLEM", p.Key, x.W.Pos(p.Pos), p.Msg)
+		}
+		for _, p := range res.Unsafe {
+			fmt.Println("UNSAFE", p.Key, x.W.Pos(p.Pos), p.Msg)
+		}
+		fmt.Println("states", len(res.LTS.States))
 	case "scan":
 		off, errI, boolI, extra := -1, -1, -1, -1
 		fmt.Sscan(args[2], &off)
